@@ -722,7 +722,7 @@ func runC09(c *an.Ctx) {
 	}
 	c.Min("O5 count-accumulation constructs", nAcc, 1)
 
-	// ---- O4: seek arithmetic in the visitor passed to Walker.Seek
+	// ---- O4: seek arithmetic in the visitor passed to Walker.Seek and in the package-local functions it calls
 	{
 		nArith := 0
 		var visitors []*ssa.Function
@@ -740,78 +740,262 @@ func runC09(c *an.Ctx) {
 				}
 			}
 		}
-		for _, vis := range visitors {
-			// subtraction left - childSize
-			an.Instrs(vis, func(in ssa.Instruction) {
+		// scope: the visitors and everything of this package they reach through static calls
+		var scope []*ssa.Function
+		{
+			seen := map[*ssa.Function]bool{}
+			var walk func(f *ssa.Function)
+			walk = func(f *ssa.Function) {
+				if seen[f] {
+					return
+				}
+				seen[f] = true
+				scope = append(scope, f)
+				for _, call := range an.AllCalls(f) {
+					if t := an.Callee(call).Static; t != nil && graph.In[t] {
+						walk(t)
+					}
+				}
+			}
+			for _, v := range visitors {
+				walk(v)
+			}
+		}
+		// the "remaining distance" variable: an int64 variable captured by the visitor and updated by it (the seek
+		// offset itself may be captured as well, but it is only read)
+		updated := map[ssa.Value]bool{}
+		for _, fn := range scope {
+			an.Instrs(fn, func(in ssa.Instruction) {
+				if st, ok := in.(*ssa.Store); ok {
+					if _, isFV := st.Addr.(*ssa.FreeVar); isFV {
+						updated[st.Addr] = true
+					}
+				}
+			})
+		}
+		isCell := func(v ssa.Value) bool {
+			fv, ok := v.(*ssa.FreeVar)
+			if !ok || !updated[v] {
+				return false
+			}
+			pt, ok := fv.Type().Underlying().(*types.Pointer)
+			if !ok {
+				return false
+			}
+			b, ok := pt.Elem().Underlying().(*types.Basic)
+			return ok && b.Kind() == types.Int64
+		}
+		cellOf := func(v ssa.Value) ssa.Value {
+			if u, ok := an.XBStripConv(v).(*ssa.UnOp); ok && u.Op == token.MUL && isCell(u.X) {
+				return u.X
+			}
+			return nil
+		}
+		// origins: the non-phi values a value is merged from (conversions stripped)
+		var origins func(v ssa.Value, out map[ssa.Value]bool, seen map[ssa.Value]bool)
+		origins = func(v ssa.Value, out map[ssa.Value]bool, seen map[ssa.Value]bool) {
+			v = an.XBStripConv(v)
+			if seen[v] {
+				return
+			}
+			seen[v] = true
+			if ph, ok := v.(*ssa.Phi); ok {
+				for _, e := range ph.Edges {
+					origins(e, out, seen)
+				}
+				return
+			}
+			out[v] = true
+		}
+		// isRemaining: the value is the remaining distance: a load of the captured variable, a parameter that
+		// receives it at every call site, or such a value decreased on the way (loop variable of a helper)
+		var isRemaining func(v ssa.Value, depth int) bool
+		isRemaining = func(v ssa.Value, depth int) bool {
+			if depth > 4 {
+				return false
+			}
+			seen := map[ssa.Value]bool{}
+			out := map[ssa.Value]bool{}
+			origins(v, out, seen)
+			n := 0
+			for o := range out {
+				switch x := o.(type) {
+				case *ssa.UnOp:
+					if cellOf(x) == nil {
+						return false
+					}
+					n++
+				case *ssa.Parameter:
+					f := x.Parent()
+					idx := -1
+					for i, q := range f.Params {
+						if q == x {
+							idx = i
+						}
+					}
+					outer := 0
+					for _, call := range graph.Callers[f] {
+						if call.Parent() == f {
+							continue
+						}
+						outer++
+						args := call.Common().Args
+						if call.Common().IsInvoke() || idx >= len(args) || !isRemaining(args[idx], depth+1) {
+							return false
+						}
+					}
+					if idx < 0 || outer == 0 {
+						return false
+					}
+					n++
+				case *ssa.BinOp:
+					// a decrement of the same variable (x - size where x is merged into v)
+					if x.Op != token.SUB || !seen[an.XBStripConv(x.X)] {
+						return false
+					}
+				default:
+					return false
+				}
+			}
+			return n > 0
+		}
+		// sameVar: b denotes the same quantity as a at a comparison: the same value, or loads of the same captured variable
+		sameVar := func(a, b ssa.Value) bool {
+			a, b = an.XBStripConv(a), an.XBStripConv(b)
+			if a == b {
+				return true
+			}
+			ca, cb := cellOf(a), cellOf(b)
+			return ca != nil && ca == cb
+		}
+		// writtenBack: the value reaches a store into the captured variable, directly or as a result handed to the caller
+		var writtenBack func(v ssa.Value, seen map[ssa.Value]bool, depth int) bool
+		writtenBack = func(v ssa.Value, seen map[ssa.Value]bool, depth int) bool {
+			if seen[v] || depth > 4 || v.Referrers() == nil {
+				return false
+			}
+			seen[v] = true
+			for _, r := range *v.Referrers() {
+				switch x := r.(type) {
+				case *ssa.Phi:
+					if writtenBack(x, seen, depth) {
+						return true
+					}
+				case *ssa.Convert:
+					if writtenBack(x, seen, depth) {
+						return true
+					}
+				case *ssa.ChangeType:
+					if writtenBack(x, seen, depth) {
+						return true
+					}
+				case *ssa.Store:
+					if x.Val == v && isCell(x.Addr) {
+						return true
+					}
+				case *ssa.Return:
+					f := x.Parent()
+					for i, res := range x.Results {
+						if res != v {
+							continue
+						}
+						outer, okAll := 0, true
+						for _, call := range graph.Callers[f] {
+							if call.Parent() == f {
+								continue
+							}
+							outer++
+							cv := an.CallValue(call)
+							ok := false
+							if cv != nil && len(x.Results) == 1 {
+								ok = writtenBack(cv, seen, depth+1)
+							} else if cv != nil && cv.Referrers() != nil {
+								for _, rr := range *cv.Referrers() {
+									if ex, isEx := rr.(*ssa.Extract); isEx && ex.Index == i && writtenBack(ex, seen, depth+1) {
+										ok = true
+									}
+								}
+							}
+							okAll = okAll && ok
+						}
+						if outer > 0 && okAll {
+							return true
+						}
+					}
+				}
+			}
+			return false
+		}
+		isBlockSize := func(v ssa.Value) (ssa.CallInstruction, bool) {
+			return an.IsCallTo(an.XBStripConv(v), an.M("ipld/unixfs", "FSNode", "BlockSize"))
+		}
+		for _, fn := range scope {
+			// subtraction remaining - childSize
+			an.Instrs(fn, func(in ssa.Instruction) {
 				b, ok := in.(*ssa.BinOp)
 				if !ok || b.Op != token.SUB {
 					return
 				}
-				lhs, ok := b.X.(*ssa.UnOp)
-				if !ok || lhs.Op != token.MUL {
-					return
-				}
-				cell := lhs.X // the captured "remaining distance" variable
-				if _, isFV := cell.(*ssa.FreeVar); !isFV {
+				_, fromSize := isBlockSize(b.Y)
+				rem := isRemaining(b.X, 0)
+				if !rem && !fromSize {
 					return
 				}
 				sub := an.XBStripConv(b.Y)
 				nArith++
-				// guard: sub <= remaining (or <) where remaining is a load of the same cell
-				edges := an.XBEdgesWhere(vis, func(r an.XBRel) bool {
+				c.Check(rem, "O4", "R-FLOW", an.FuncName(fn), "remaining-=childSize<=minuend-is-remaining", b.Pos(),
+					"a child's size is subtracted from the remaining seek distance", "a child's block size is subtracted from a value that is not the remaining seek distance of the visitor")
+				// guard: sub <= remaining (or <) on the same quantity
+				edges := an.XBEdgesWhere(fn, func(r an.XBRel) bool {
 					x, y, op := an.XBStripConv(r.X), an.XBStripConv(r.Y), r.Op
-					isCellLoad := func(v ssa.Value) bool {
-						u, ok := v.(*ssa.UnOp)
-						return ok && u.Op == token.MUL && u.X == cell
-					}
-					if x == sub && isCellLoad(y) {
+					if x == sub && sameVar(y, b.X) {
 						return op == token.LEQ || op == token.LSS
 					}
-					if y == sub && isCellLoad(x) {
+					if y == sub && sameVar(x, b.X) {
 						return op == token.GEQ || op == token.GTR
 					}
 					return false
 				})
-				c.Check(len(edges) > 0 && an.GuardedBy(vis, nil, in, edges), "O4", "R-CMP", an.FuncName(vis), "remaining-=childSize<=childSize<=remaining", b.Pos(),
+				c.Check(len(edges) > 0 && an.GuardedBy(fn, nil, in, edges), "O4", "R-CMP", an.FuncName(fn), "remaining-=childSize<=childSize<=remaining", b.Pos(),
 					"a child is skipped only where its size is <= the remaining distance", "the remaining seek distance is decreased by a child size that was not tested <= the remaining distance: Seek lands in the wrong leaf")
-				call, isCall := an.IsCallTo(sub, an.M("ipld/unixfs", "FSNode", "BlockSize"))
+				call, isCall := isBlockSize(sub)
 				okIdx := false
 				if isCall {
 					if idx, ok := an.IsCallTo(an.XBStripConv(an.Args(call)[0]), an.M("github.com/ipfs/go-ipld-format", "Walker", "ActiveChildIndex")); ok && idx != nil {
 						okIdx = true
 					}
 				}
-				c.Check(okIdx, "O4", "R-FLOW", an.FuncName(vis), "childSize=BlockSize(ActiveChildIndex)", b.Pos(),
+				c.Check(okIdx, "O4", "R-FLOW", an.FuncName(fn), "childSize=BlockSize(ActiveChildIndex)", b.Pos(),
 					"the skipped size is the recorded size of the walker's active child", "the size subtracted is not FSNode.BlockSize(walker.ActiveChildIndex()): sizes and children are mismatched")
+				c.Check(writtenBack(b, map[ssa.Value]bool{}, 0), "O4", "R-FLOW", an.FuncName(fn), "remaining-=childSize=>kept-in-remaining", b.Pos(),
+					"the decreased distance is kept as the visitor's remaining distance", "the distance decreased by the skipped child never reaches the visitor's remaining-distance variable (result dropped): the leaf is positioned as if no child had been skipped")
 			})
 			// leaf positioning
-			for _, call := range an.Calls(vis, an.M("bytes", "Reader", "Seek")) {
+			for _, call := range an.Calls(fn, an.M("bytes", "Reader", "Seek")) {
 				if !c09LoadOfField(an.Recv(call), fCur) {
 					continue
 				}
 				nArith++
 				args := an.Args(call)
 				k, isK := an.XBInt64(args[1])
-				l, isLoad := args[0].(*ssa.UnOp)
-				_, isFV := ssa.Value(nil), false
-				if isLoad {
-					_, isFV = l.X.(*ssa.FreeVar)
-				}
-				c.Check(isK && k == 0 && isLoad && isFV, "O4", "R-FLOW", an.FuncName(vis), "leaf.Seek(remaining,SeekStart)", call.Pos(),
+				c.Check(isK && k == 0 && isRemaining(args[0], 0), "O4", "R-FLOW", an.FuncName(fn), "leaf.Seek(remaining,SeekStart)", call.Pos(),
 					"the leaf buffer is positioned at the remaining distance from its start", "the leaf buffer is not positioned with Seek(remaining, io.SeekStart)")
 			}
-			// count mismatch guard
-			nl := an.XBEdgesWhere(vis, func(r an.XBRel) bool {
-				if r.Op != token.EQL {
-					return false
-				}
-				_, a := an.IsCallTo(r.X, an.M("ipld/unixfs", "FSNode", "NumChildren"))
-				_, b := an.IsCallTo(r.Y, an.M("ipld/unixfs", "FSNode", "NumChildren"))
-				return a || b
-			})
-			for _, call := range an.Calls(vis, an.M("ipld/unixfs", "FSNode", "BlockSize")) {
+			// count mismatch guard (in the function itself or at every call site of it)
+			for _, call := range an.Calls(fn, an.M("ipld/unixfs", "FSNode", "BlockSize")) {
 				nArith++
-				c.Check(len(nl) > 0 && an.GuardedBy(vis, nil, call, nl), "O4", "R-DOM", an.FuncName(vis), "BlockSize<=NumChildren==len(Links)", call.Pos(),
+				held := graph.HeldUp(fn, call, func(f *ssa.Function, s ssa.Instruction) bool {
+					nl := an.XBEdgesWhere(f, func(r an.XBRel) bool {
+						if r.Op != token.EQL {
+							return false
+						}
+						_, a := an.IsCallTo(r.X, an.M("ipld/unixfs", "FSNode", "NumChildren"))
+						_, b := an.IsCallTo(r.Y, an.M("ipld/unixfs", "FSNode", "NumChildren"))
+						return a || b
+					})
+					return len(nl) > 0 && an.GuardedBy(f, nil, s, nl)
+				}, 3)
+				c.Check(held, "O4", "R-DOM", an.FuncName(fn), "BlockSize<=NumChildren==len(Links)", call.Pos(),
 					"block sizes are used only when their count equals the link count", "FSNode.BlockSize is used without checking NumChildren()==len(Links()): index out of range / wrong child on malformed nodes")
 			}
 		}
